@@ -154,4 +154,20 @@ example : InputOK 100 exUnsat ∧ InputOK 100 exSat ∧ InputOK 100 exConflict :
     simp [exUnsat, exSat, exConflict] at hq
     rcases hq with rfl | rfl | rfl <;> simp [DistinctVars, varsOf]
 
+/-- Partial statement for `branch_and_bound`: every node of its search runs
+`Simplex(); add_ineqs(new_bound, *parent.original); handle_assertion()`, i.e. `run` on a list `qs'`
+that contains the original constraints `qs`; if that run ends without exception, its `mapping`
+(what `branch_and_bound` returns once `all_integer()` holds) satisfies every original constraint.
+MISSING: the search loop itself (queue, `all_integer`, `find_not_int_var`, the bare `except:` that
+turns any error of a node into "infeasible") is not modelled, so nothing is proved about the answer
+"no integer solution" (`bb_unsat_sound` is absent; that verdict is judged per run by Z3 / brute force). -/
+theorem bb_sat_sound_partial (N fuel : Nat) (qs qs' : List Ineq) (hin : InputOK N qs') (hsub : ∀ q ∈ qs, q ∈ qs')
+    (s' : SState) (tr : List SState) (h : run fuel qs' = (.sat s', tr)) :
+    ∀ q ∈ qs, (∀ x, q.jars ≠ [(x, 0)]) → IneqHolds q s'.mapping :=
+  fun q hq hnz => run_sat N fuel qs' hin s' tr h q (hsub q hq) hnz
+
+-- the node "x ≤ 0" below the root 2·x ≥ 1, 2·x ≤ 3 is infeasible, the node "x ≥ 1" is feasible (with x = 1)
+example : outcomeTag (run 20 (⟨.ge, [(100, 1)], 1⟩ :: [⟨.ge, [(100, 2)], 1⟩, ⟨.le, [(100, 2)], 3⟩])).1 = 0 ∧
+    outcomeTag (run 20 (⟨.le, [(100, 1)], 0⟩ :: [⟨.ge, [(100, 2)], 1⟩, ⟨.le, [(100, 2)], 3⟩])).1 ≠ 0 := by decide +kernel
+
 end Holpy.C16
